@@ -42,7 +42,34 @@ func c12exec(bin, dir string, args ...string) c12run {
 }
 
 // c12tomlSafe: TOML cannot represent null; its integers are int64.
+// c12addBytes replaces some string leaves by bytes leaves (single line, multi-line printable text such as a PEM
+// block, arbitrary bytes): JSON and YAML carry them as base64 / !!binary, CUE as a bytes literal.
+func c12addBytes(r *rand.Rand, d *gen.Data) {
+	pool := [][]byte{[]byte("abc"), []byte("-----BEGIN X-----\nMIIB\nAAAA\n-----END X-----\n"), []byte("line1\nline2"), []byte("a\n\nb\n"), {0, 1, 2, 0xff}, []byte("tab\there"), []byte("é\nü"), {}, []byte("x: y\n- z\n"), []byte(" lead\ntrail \n")}
+	var walk func(x *gen.Data)
+	walk = func(x *gen.Data) {
+		for i, e := range x.Elems {
+			if e.Kind == "string" && r.IntN(6) == 0 {
+				x.Elems[i] = gen.BytesData(pool[r.IntN(len(pool))])
+			} else {
+				walk(e)
+			}
+		}
+		for i, v := range x.Vals {
+			if v.Kind == "string" && r.IntN(6) == 0 {
+				x.Vals[i] = gen.BytesData(pool[r.IntN(len(pool))])
+			} else {
+				walk(v)
+			}
+		}
+	}
+	walk(d)
+}
+
 func c12tomlSafe(d *gen.Data) bool {
+	if d.CUELit != "" {
+		return false // TOML has no bytes
+	}
 	switch d.Kind {
 	case "null":
 		return false
@@ -176,7 +203,7 @@ func c12errClass(s string) string {
 
 func init() {
 	register("C12", "exploration", func(c *Ctx) {
-		c.Rule = "concrete packages from the data generator (top-level struct, adversarial string/key pool without U+FEFF - recorded under C10 -, numbers incl. > 64 bit and exponents; TOML-safe subset for TOML) x the real cue binary: export --out json (file argument, package argument, -e path, --escape) must equal the ground truth; export to json/yaml/toml/cue through --out on stdout, -o file.ext (type from the name) and -o enc:file, then cue import of the exported file and export --out json must reproduce the original JSON (key order insensitive for TOML); exit status 0 for concrete packages, non-zero for non-concrete, conflicting and missing-required packages in every encoding; values TOML cannot represent must be refused. Non-trivial = distinct package with >= 3 fields or nesting."
+		c.Rule = "concrete packages from the data generator (top-level struct, adversarial string/key pool without U+FEFF - recorded under C10 -, numbers incl. > 64 bit and exponents; bytes values - single line, multi-line printable text, arbitrary bytes - whose JSON form is base64; TOML-safe subset for TOML) x the real cue binary: export --out json (file argument, package argument, -e path, --escape) must equal the ground truth; export to json/yaml/toml/cue through --out on stdout, -o file.ext (type from the name) and -o enc:file, then cue import of the exported file and export --out json must reproduce the original JSON (key order insensitive for TOML); exit status 0 for concrete packages, non-zero for non-concrete, conflicting and missing-required packages in every encoding; values TOML cannot represent must be refused. Non-trivial = distinct package with >= 3 fields or nesting."
 		c.Assume = []string{"ground truth = the generator's own tree; encoding/json (Go) reads the CLI's JSON output back with json.Number precision"}
 		if c.Replay != nil {
 			c.Inconclusive("replay: the violation file holds the package source and the command lines")
@@ -209,6 +236,9 @@ func init() {
 				if d.Kind == "struct" && len(d.Keys) > 0 && !c12hasBOM(d) {
 					break
 				}
+			}
+			if i%4 == 1 || i%4 == 3 {
+				c12addBytes(r, d)
 			}
 			dir := filepath.Join(base, fmt.Sprint(i))
 			os.MkdirAll(dir, 0o777)
